@@ -104,6 +104,13 @@ def raw_cases(rng, n):
                     fixed.append(("un", ("slice", w[0], w[1]), mp.DEFAULT, ("un", ("sort", again), mp.DEFAULT, first)))
     fixed += sp.fixed_window_cases()
     fixed += sp.sorted_then_sequences(False)
+    # a window of a window (both with a start and a stop) over a totally sorted ten-row table, also with a third one on top
+    big = ("leaf", 5, ("sql", 0), [a], [{a: (7 * i) % 10} for i in range(10)], (0, None))
+    srt10 = ("un", ("sort", [(("ref", a), True)]), mp.DEFAULT, big)
+    for w1 in ((2, 8), (0, 2), (1, None), (3, 6)):
+        for w2 in ((1, 3), (1, 5), (0, 2), (2, None)):
+            two = ("un", ("slice", w2[0], w2[1]), mp.DEFAULT, ("un", ("slice", w1[0], w1[1]), mp.DEFAULT, srt10))
+            fixed += [two, ("un", ("slice", 1, 2), mp.DEFAULT, two)]
     n += len(fixed)
     for k in range(n):
         p, cols, ordered = sp.gen_sqlprog(rng, rng.choice([1, 2, 3, 4, 5]))
